@@ -22,6 +22,7 @@ import (
 	"encoding/base64"
 	"encoding/hex"
 	"encoding/json"
+	"encoding/pem"
 	"flag"
 	"fmt"
 	"io"
@@ -102,11 +103,16 @@ func newEnv() *env {
 	must(0, err)
 	chain := must(ca.SignX509(must(ca.Token(fixture.TokenOpts{Subject: "step"})), csr, provisioner.SignOptions{}))
 	e.leaf, e.key = chain[0], key
+	if pk, err := x509.MarshalPKIXPublicKey(key.Public()); err == nil {
+		pubPEM = pem.EncodeToMemory(&pem.Block{Type: "PUBLIC KEY", Bytes: pk})
+	}
 	jwk := must(jose.GenerateJWK("EC", "P-256", "ES256", "sig", "", 0))
 	pub := jwk.Public()
 	e.jwkPub = must(pub.MarshalJSON())
 	return e
 }
+
+var pubPEM []byte // a PEM public key for K8sSA provisioners
 
 func (e *env) close() { e.ca.Close(); os.RemoveAll(e.dir) }
 
@@ -306,6 +312,16 @@ func mutateProv(p *linkedca.Provisioner, variant string) string {
 		p.Type = linkedca.Provisioner_ACME
 	case "shortclaims":
 		p.Claims = &linkedca.Claims{X509: &linkedca.X509Claims{Enabled: true, Durations: &linkedca.Durations{Min: "1m", Max: "2m", Default: "90s"}}}
+	case "k8s", "k8sid":
+		// a Kubernetes service-account provisioner: one token id whatever the name; "id": with an id of the client's choosing
+		p.Type = linkedca.Provisioner_K8SSA
+		p.Details = &linkedca.ProvisionerDetails{Data: &linkedca.ProvisionerDetails_K8SSA{K8SSA: &linkedca.K8SSAProvisioner{PublicKeys: [][]byte{pubPEM}}}}
+		if variant == "k8sid" {
+			p.Id = "client-chosen-" + p.Name
+		}
+	case "presetid":
+		p.Id = "client-chosen-" + p.Name
+		p.AuthorityId = "some-other-authority"
 	case "notjson":
 		return `{"name": `
 	}
@@ -316,9 +332,9 @@ func mutateProv(p *linkedca.Provisioner, variant string) string {
 	return string(b)
 }
 
-var provVariants = []string{"", "", "", "", "", "", "", "goodtemplate", "goodtemplate", "shortclaims", "shortclaims", "min>max", "baddur", "negdur", "min>default", "sshdur",
+var provVariants = []string{"", "", "", "", "", "", "", "goodtemplate", "goodtemplate", "shortclaims", "k8s", "k8s", "k8sid", "k8sid", "presetid", "shortclaims", "min>max", "baddur", "negdur", "min>default", "sshdur",
 	"badtemplate", "badtemplatedata", "badsshtemplate", "nodetails", "wrongdetails", "badkey", "emptyname", "notjson"}
-var updVariants = []string{"", "", "", "", "rename", "rename", "rename", "rename", "goodtemplate", "shortclaims", "goodtemplate", "shortclaims", "min>max", "baddur", "badtemplate", "badtemplatedata",
+var updVariants = []string{"", "", "", "nopolicy", "nopolicy", "rename", "rename", "rename", "rename", "goodtemplate", "shortclaims", "goodtemplate", "shortclaims", "min>max", "baddur", "badtemplate", "badtemplatedata",
 	"changeid", "changetype", "wrongdetails", "notjson"}
 var whVariants = []string{"", "", "", "", "", "", "", "http", "nohost", "userinfo", "nokind", "noname", "secret", "notjson"}
 
@@ -360,6 +376,9 @@ func (e *env) exec(o Op) (res fixture.Result, applied func(snap) bool) {
 		v := o.V
 		if v == "rename" {
 			lp.Name, newName, v = o.A[1], o.A[1], ""
+		}
+		if v == "nopolicy" {
+			lp.Policy, v = nil, "" // PUT without policy: how a provisioner policy is removed on a stand-alone CA
 		}
 		res = e.do("PUT", "/admin/provisioners/"+o.A[0], mutateProv(lp, v))
 		return res, func(s snap) bool { _, ok := s.provs[newName]; return ok }
@@ -666,8 +685,11 @@ func corner() []*Case {
 	return []*Case{
 		// provisioner policies through their sub-router (hosted database): refused lock-out, accepted, conflict, replaced, removed; and switched off in standalone mode
 		{Hosted: true, Ops: []Op{{K: "cp", A: []string{"pa"}}, {K: "qu", A: []string{"pa"}}, {K: "qd", A: []string{"pa"}}, {K: "qp", A: []string{"jwk"}, V: "lockout"}, {K: "qp", A: []string{"jwk"}, V: "badname"},
-			{K: "qp", A: []string{"jwk"}}, {K: "qp", A: []string{"jwk"}}, {K: "rs"}, {K: "qu", A: []string{"jwk"}, V: "lockout"}, {K: "qu", A: []string{"jwk"}, V: "other"}, {K: "up", A: []string{"jwk", "pb"}, V: "rename"},
+			{K: "qp", A: []string{"jwk"}}, {K: "qp", A: []string{"jwk"}}, {K: "rs"}, {K: "qu", A: []string{"jwk"}, V: "lockout"}, {K: "qu", A: []string{"jwk"}, V: "other"}, {K: "up", A: []string{"jwk", "jwk"}, V: "nopolicy"}, {K: "rs"}, {K: "qp", A: []string{"jwk"}}, {K: "up", A: []string{"jwk", "pb"}, V: "rename"},
 			{K: "qu", A: []string{"pb"}, V: "lockout"}, {K: "qd", A: []string{"pb"}}, {K: "qd", A: []string{"pb"}}, {K: "eb", A: []string{"pb"}}, {K: "rs"}}},
+		// token ids that do not depend on the name, ids of the client's choosing
+		{Ops: []Op{{K: "cp", A: []string{"pa"}, V: "k8s"}, {K: "cp", A: []string{"pb"}, V: "k8s"}, {K: "cp", A: []string{"pb"}, V: "k8sid"}, {K: "cp", A: []string{"pc"}, V: "presetid"}, {K: "rs"},
+			{K: "up", A: []string{"pa", "pd"}, V: "rename"}, {K: "cp", A: []string{"pa"}, V: "k8sid"}, {K: "dp", A: []string{"pd"}}, {K: "cp", A: []string{"pa"}, V: "k8sid"}, {K: "rs"}}},
 		{Ops: []Op{{K: "qp", A: []string{"jwk"}}, {K: "qu", A: []string{"jwk"}}, {K: "qd", A: []string{"jwk"}}, {K: "eb", A: []string{"jwk"}}}},
 		{Ops: []Op{{K: "pd"}, {K: "pp", V: "lockout"}, {K: "pp"}, {K: "pp"}, {K: "pu", V: "other"}, {K: "rs"}, {K: "pd"}, {K: "pd"}, {K: "pu"}, {K: "xd"}, {K: "pd"}, {K: "rs"}}},
 		{Ops: []Op{{K: "cp", A: []string{"pa"}}, {K: "cp", A: []string{"pa"}}, {K: "cp", A: []string{"pb"}, V: "min>max"}, {K: "cp", A: []string{"pb"}, V: "badtemplate"},
